@@ -30,6 +30,7 @@ func runC17(w *World, r *Report) {
 	hrFlowContextGetterIsPure(w, r, "R1")
 	hrDuplicateEdgeByEquality(w, r, "R1")
 	hrDestroyDoesNotRecreate(w, r, "R1")
+	hrStoredResponseOwnsItsHeaders(w, r, "R2")
 	hrHeadersAliasing(w, r, "R1")
 	hrCycleCheckSkippedOnlyWithoutRoot(w, r, "R1")
 	hrNewResponseKeepsIdentity(w, r, "R1")
